@@ -118,12 +118,12 @@ def judge(case):
 
 
 def shards(tier):
-    k, n = (16, 5) if tier == "quick" else (64, 40)
+    k, n = (16, 15) if tier == "quick" else (64, 120)
     return [{"id": i, "n": n} for i in range(k)]
 
 
 def shards_sweep(tier):
-    k = 6 if tier == "quick" else 48
+    k = 8 if tier == "quick" else 96
     return [{"id": i, "n": 1, "cost": 30} for i in range(k)]
 
 
